@@ -90,7 +90,7 @@ fn wide_points<T: TryFrom<i128>>(points: &[i128]) -> Vec<T> {
 }
 
 fn sources() -> Vec<RV> {
-    vec![
+    let mut v = vec![
         RV::Str("s".into()),
         RV::Str(String::new()),
         RV::Str("long text ".repeat(500)),
@@ -130,7 +130,34 @@ fn sources() -> Vec<RV> {
         RV::map(&[]),
         RV::map(&[("a", RV::Int(1))]),
         RV::None,
-    ]
+    ];
+    // values shaped like another kind of container, or like a wrapped scalar (extraction never
+    // re-interprets structure): one-element lists and one-entry maps around every scalar, lists of
+    // [key, value] pairs and of {key, value} maps, maps whose keys are 0, 1, 2, ...
+    for x in [RV::Int(5), RV::Str("s".into()), RV::Bool(true), RV::float(1.5), RV::Dec(RDec { neg: false, mant: 15, scale: 1 }), RV::Dt(0, 0), RV::Dur(1_000_000_000), RV::None] {
+        v.push(RV::List(vec![x.clone()]));
+        v.push(RV::List(vec![RV::List(vec![x.clone()])]));
+        for k in ["value", "0", "Some", "some", "v"] {
+            v.push(RV::map(&[(k, x.clone())]));
+        }
+        v.push(RV::List(vec![RV::List(vec![RV::Str("k".into()), x.clone()])]));
+        v.push(RV::List(vec![RV::List(vec![RV::Str("content-type".into()), x.clone()]), RV::List(vec![RV::Str("x".into()), x.clone()])]));
+        v.push(RV::List(vec![RV::map(&[("key", RV::Str("k".into())), ("value", x.clone())])]));
+        v.push(RV::List(vec![RV::map(&[("k", x.clone())])]));
+        v.push(RV::List(vec![RV::List(vec![RV::Int(0), x.clone()])]));
+        v.push(RV::map(&[("0", x.clone()), ("1", x.clone())]));
+        v.push(RV::map(&[("0", x.clone())]));
+    }
+    v.push(RV::List(vec![RV::Str("a".into()), RV::Str("b".into())]));
+    v.push(RV::List(vec![RV::List(vec![RV::Str("a".into()), RV::Str("b".into())])]));
+    v.push(RV::List(vec![RV::List(vec![RV::Str("a".into()), RV::Str("b".into())]), RV::List(vec![RV::Str("c".into()), RV::Str("d".into())])]));
+    v.push(RV::map(&[("len", RV::Int(0))]));
+    v.extend(crate::checks::pool::v0());
+    v.extend(crate::checks::pool::sweep_lists());
+    v.extend(crate::checks::pool::sweep_maps());
+    v.sort();
+    v.dedup();
+    v
 }
 
 /// extraction of every variant into every non-integer target: succeeds exactly for the matching
@@ -214,7 +241,7 @@ fn collections(acc: &mut Acc, max_len: usize) {
         let list = RV::List(t.clone()).to_value();
         let map_rv: BTreeMap<String, RV> = t.iter().enumerate().map(|(i, v)| (format!("k{i}"), v.clone())).collect();
         let map = RV::Map(map_rv.clone()).to_value();
-        acc.count("executions", 5);
+        acc.count("executions", 4);
         // Vec<i8>
         let want: Result<Vec<i8>, &str> = t.iter().map(elem_i8).collect();
         match (catch(|| Vec::<i8>::try_from(list.clone())), &want) {
@@ -281,7 +308,7 @@ fn collections(acc: &mut Acc, max_len: usize) {
         let elems: Vec<RV> = (0..100).map(|i| if Some(i) == bad_at { RV::Int(200) } else { RV::Int((i as i128) - 50) }).collect();
         let list = RV::List(elems.clone()).to_value();
         let map = RV::Map(elems.iter().enumerate().map(|(i, v)| (format!("k{i:03}"), v.clone())).collect()).to_value();
-        acc.count("executions", 3);
+        acc.count("executions", 5);
         let want: Result<Vec<i8>, ()> = elems.iter().map(|e| elem_i8(e).map_err(|_| ())).collect();
         match (catch(|| Vec::<i8>::try_from(list.clone())), &want) {
             (Ok(Ok(g)), Ok(w)) if g == *w => {}
@@ -319,21 +346,30 @@ fn collections(acc: &mut Acc, max_len: usize) {
         let is_list = matches!(src, RV::List(_));
         let is_map = matches!(src, RV::Map(_));
         acc.count("executions", 3);
-        match catch(|| Vec::<i128>::try_from(val.clone())) {
-            Ok(Ok(_)) if src == RV::List(vec![]) => {}
-            Ok(Err(_)) if src == RV::List(vec![RV::Int(1), RV::Str("x".into())]) => {}
-            Ok(Err(reval::Error::UnexpectedValueType(v, _))) if !is_list && (RV::from_value(&v) == src || matches!(src, RV::Float(_))) => {}
-            other => bad(acc, format!("vec-i128/from-{}", src.ty().name()), format!("Vec<i128>::try_from({}) = {:?}", src.show(), other.map(|r| r.map(|v| v.len()).map_err(|e| format!("{e:?}"))))),
+        // a source that is not of the target's container kind is refused with the type error carrying
+        // it; one that is converts element by element (every element must convert)
+        let carries = |v: &Value| RV::from_value(v) == src;
+        match (catch(|| Vec::<i128>::try_from(val.clone())), &src) {
+            (Ok(Ok(got)), RV::List(items)) if items.iter().all(|x| matches!(x, RV::Int(_))) && got.iter().map(|i| RV::Int(*i)).collect::<Vec<_>>() == *items => {}
+            (Ok(Err(_)), RV::List(items)) if !items.iter().all(|x| matches!(x, RV::Int(_))) => {}
+            (Ok(Err(reval::Error::UnexpectedValueType(v, _))), _) if !is_list && carries(&v) => {}
+            (other, _) => bad(acc, format!("vec-i128/from-{}", src.ty().name()), format!("Vec<i128>::try_from({}) = {:?}", src.show(), other.map(|r| r.map_err(|e| format!("{e:?}"))))),
         }
-        match catch(|| BTreeMap::<String, Value>::try_from(val.clone())) {
-            Ok(Ok(_)) if is_map => {}
-            Ok(Err(reval::Error::UnexpectedValueType(v, _))) if !is_map && (RV::from_value(&v) == src || matches!(src, RV::Float(_))) => {}
-            other => bad(acc, format!("btreemap-value/from-{}", src.ty().name()), format!("BTreeMap<String,Value>::try_from({}) = {:?}", src.show(), other.map(|r| r.map(|v| v.len()).map_err(|e| format!("{e:?}"))))),
+        match (catch(|| BTreeMap::<String, Value>::try_from(val.clone())), &src) {
+            (Ok(Ok(got)), RV::Map(_)) if RV::from_value(&Value::Map(got.clone())) == src => {}
+            (Ok(Err(reval::Error::UnexpectedValueType(v, _))), _) if !is_map && carries(&v) => {}
+            (other, _) => bad(acc, format!("btreemap-value/from-{}", src.ty().name()), format!("BTreeMap<String,Value>::try_from({}) = {:?}", src.show(), other.map(|r| r.map(|v| v.len()).map_err(|e| format!("{e:?}"))))),
         }
-        match catch(|| HashMap::<String, i8>::try_from(val.clone())) {
-            Ok(Ok(_)) if is_map && src == RV::map(&[]) || src == RV::map(&[("a", RV::Int(1))]) => {}
-            Ok(Err(_)) if !is_map => {}
-            other => bad(acc, format!("hashmap-i8/from-{}", src.ty().name()), format!("HashMap<String,i8>::try_from({}) = {:?}", src.show(), other.map(|r| r.map(|v| v.len()).map_err(|e| format!("{e:?}"))))),
+        match (catch(|| HashMap::<String, i8>::try_from(val.clone())), &src) {
+            (Ok(Ok(got)), RV::Map(m)) if m.values().all(|x| elem_i8(x).is_ok()) && got.len() == m.len() && m.iter().all(|(k, x)| elem_i8(x).ok() == got.get(k).copied()) => {}
+            (Ok(Err(_)), RV::Map(m)) if !m.values().all(|x| elem_i8(x).is_ok()) => {}
+            (Ok(Err(reval::Error::UnexpectedValueType(v, _))), _) if !is_map && carries(&v) => {}
+            (other, _) => bad(acc, format!("hashmap-i8/from-{}", src.ty().name()), format!("HashMap<String,i8>::try_from({}) = {:?}", src.show(), other.map(|r| r.map(|v| v.len()).map_err(|e| format!("{e:?}"))))),
+        }
+        match (catch(|| HashMap::<String, Value>::try_from(val.clone())), &src) {
+            (Ok(Ok(got)), RV::Map(m)) if got.len() == m.len() && m.iter().all(|(k, x)| got.get(k).map(RV::from_value).as_ref() == Some(x)) => {}
+            (Ok(Err(reval::Error::UnexpectedValueType(v, _))), _) if !is_map && carries(&v) => {}
+            (other, _) => bad(acc, format!("hashmap-value/from-{}", src.ty().name()), format!("HashMap<String,Value>::try_from({}) = {:?}", src.show(), other.map(|r| r.map(|v| v.len()).map_err(|e| format!("{e:?}"))))),
         }
     }
 }
